@@ -32,7 +32,7 @@ ASSUMPTIONS = [
 
 ATOMS = [
     "a", "bc", "1", "if", "lambda", "+", "==", "*", "(", ")", "[", "]", "{", "}", ",", " ", "'s'", '"x,y"', "'a)b'", '"]"', "$X", "$(ls)", "@(e)",
-    "!", "?", "#c\n", "\n", ":", ".", "f'{a},{b}'", "=", "`g*`", "\n      ", "f'({a})'",
+    "!", "?", "#c\n", "\n", ":", ".", "f'{a},{b}'", "=", "`g*`", "\n      ", "f'({a})'", "\\\n", " \\\n   ",
 ]
 PLACEMENTS = [
     ("{}\n", None),
@@ -101,6 +101,10 @@ def cases(unit: tuple) -> Iterator[dict]:
                 body = [first, *rest]
                 for after in AFTER:
                     yield {"kind": "with", "body": body, "after": after, "indent": 0}
+                if m <= 1:  # blanks / a comment between the colon of the header and the end of its line
+                    for tail in (" ", "\t ", "  # note", "# n", " #"):
+                        yield {"kind": "with", "body": body, "after": "y = 2\n", "indent": 0, "tail": tail}
+                        yield {"kind": "with", "body": body, "after": "return 1\n", "indent": 4, "tail": tail, "tab": True}
                 yield {"kind": "with", "body": body, "after": "return 1\n", "indent": 4}
                 # the same block indented by a tab (eight columns, one character)
                 yield {"kind": "with", "body": body, "after": "y = 2\n", "indent": 0, "tab": True}
@@ -209,7 +213,7 @@ def _check_proc(case: dict, acc: Any) -> None:
     elif not body or body[0] in "([=":
         acc.count("outside:digraph-or-empty")
         return
-    if not macrosplit.balanced(raw) or "#" in raw or "\n" in raw:
+    if not macrosplit.balanced(raw) or "#" in raw or "\n" in raw.replace("\\\n", ""):
         acc.count("outside:unbalanced")
         return
     acc.nontrivial(src)
@@ -244,7 +248,7 @@ def _procfam(raw: str) -> str:
 
 def _with_src(case: dict) -> tuple[str, str]:
     ind = " " * case["indent"]
-    head = ("def f():\n" if case["indent"] else "") + f"{ind}with! ctx as c:\n"
+    head = ("def f():\n" if case["indent"] else "") + f"{ind}with! ctx as c:{case.get('tail', '')}\n"
     unit = "\t" if case.get("tab") else "    "
     lines = [_place(ind, ln, unit) for ln in case["body"]]
     block = "".join(lines)
